@@ -107,10 +107,22 @@ where
     where
         T: Ord,
     {
-        let a = parse_filesize(&self.values[i].to_string()).unwrap_or(0);
-        let b = parse_filesize(&other.values[i].to_string()).unwrap_or(0);
+        // plain numbers first (they may be negative or fractional), then sizes with a unit (`1.5KiB`)
+        fn number(s: &str) -> f64 {
+            match s.parse::<f64>() {
+                Ok(number) if !number.is_nan() => number,
+                _ => parse_filesize(s).unwrap_or(0) as f64,
+            }
+        }
 
-        a.cmp(&b)
+        let a = self.values[i].to_string();
+        let b = other.values[i].to_string();
+
+        // integers beyond 2^53 that collapse to one floating-point value are told apart exactly
+        number(&a).total_cmp(&number(&b)).then_with(|| match (a.parse::<i64>(), b.parse::<i64>()) {
+            (Ok(a), Ok(b)) => a.cmp(&b),
+            _ => Ordering::Equal,
+        })
     }
 
     #[inline]
